@@ -845,12 +845,25 @@ func (p *rparser) dotRHS(bp int) *rnode {
 		return p.expression(bp)
 	case rtLbracket:
 		p.advance()
-		return p.multiList()
+		return p.continueLed(p.multiList(), bp)
 	case rtLbrace:
 		p.advance()
-		return p.multiHash()
+		return p.continueLed(p.multiHash(), bp)
 	}
 	return p.fail(ecSyntax)
+}
+
+// continueLed: a multi-select behind a dot is followed by further selectors
+// like any other right-hand side (inside a projection they belong to the
+// projection: "extends over following selectors until a pipe, a
+// lower-precedence operator or a closing bracket").
+func (p *rparser) continueLed(left *rnode, bp int) *rnode {
+	for p.ec == ecNone && bp < p.curBP() {
+		t := p.cur()
+		p.advance()
+		left = p.led(t, left)
+	}
+	return left
 }
 
 func (p *rparser) multiList() *rnode {
